@@ -22,6 +22,16 @@ pub fn read_ndjson(path: &str) -> Vec<Value> {
         .collect()
 }
 
+/// Streams an ndjson file one record at a time (large edge dumps do not fit in memory as JSON trees).
+pub fn stream_ndjson(path: &str) -> impl Iterator<Item = Value> {
+    let f = File::open(path).unwrap_or_else(|e| panic!("open {path}: {e}"));
+    BufReader::new(f)
+        .lines()
+        .map(|l| l.unwrap())
+        .filter(|l| !l.trim().is_empty())
+        .map(|l| serde_json::from_str(&l).unwrap_or_else(|e| panic!("bad json line: {e}: {l}")))
+}
+
 pub struct Out {
     w: BufWriter<Box<dyn Write>>,
 }
@@ -146,13 +156,15 @@ fn panic_msg(e: Box<dyn std::any::Any + Send>) -> String {
 /// `post`.  A mismatch with a matching pre-state is a *root* mismatch.
 pub fn run_edges<E: Engine>(eng: &E, input: &str, output: Option<&str>) {
     std::panic::set_hook(Box::new(|_| {}));
-    let edges = read_ndjson(input);
+    let mut n_edges = 0u64;
     let mut out = Out::new(output);
     let (mut n_ok, mut n_root, mut n_taint, mut n_panic) = (0u64, 0u64, 0u64, 0u64);
     let mut per_sig: BTreeMap<String, u64> = BTreeMap::new();
     let mut ops_seen: BTreeMap<String, u64> = BTreeMap::new();
     let null = Value::Null;
-    for (idx, e) in edges.iter().enumerate() {
+    for (idx, e) in stream_ndjson(input).enumerate() {
+        let e = &e;
+        n_edges += 1;
         let cfg = e.get("cfg").unwrap_or(&null);
         let hist = e["hist"].as_array().cloned().unwrap_or_default();
         let op = &e["op"];
@@ -210,7 +222,7 @@ pub fn run_edges<E: Engine>(eng: &E, input: &str, output: Option<&str>) {
     }
     let sigs: Map<String, Value> = per_sig.into_iter().map(|(k, v)| (k, json!(v))).collect();
     let ops: Map<String, Value> = ops_seen.into_iter().map(|(k, v)| (k, json!(v))).collect();
-    out.emit(&json!({"kind":"summary","edges":edges.len(),"ok":n_ok,"root":n_root,"tainted":n_taint,
+    out.emit(&json!({"kind":"summary","edges":n_edges,"ok":n_ok,"root":n_root,"tainted":n_taint,
                      "panics":n_panic,"sigs":sigs,"ops":ops}));
     out.flush();
 }
@@ -219,12 +231,14 @@ pub fn run_edges<E: Engine>(eng: &E, input: &str, output: Option<&str>) {
 /// {"ops":[op..], "expect":[proj after each op], ("cfg":..)}.  The first divergent step is reported.
 pub fn run_behaviours<E: Engine>(eng: &E, input: &str, output: Option<&str>) {
     std::panic::set_hook(Box::new(|_| {}));
-    let behs = read_ndjson(input);
+    let mut n_behs = 0u64;
     let mut out = Out::new(output);
     let (mut n_ok, mut n_bad, mut n_steps) = (0u64, 0u64, 0u64);
     let mut per_sig: BTreeMap<String, u64> = BTreeMap::new();
     let null = Value::Null;
-    for (idx, b) in behs.iter().enumerate() {
+    for (idx, b) in stream_ndjson(input).enumerate() {
+        let b = &b;
+        n_behs += 1;
         let cfg = b.get("cfg").unwrap_or(&null);
         let ops = b["ops"].as_array().cloned().unwrap_or_default();
         let exps = b["expect"].as_array().cloned().unwrap_or_default();
@@ -262,7 +276,7 @@ pub fn run_behaviours<E: Engine>(eng: &E, input: &str, output: Option<&str>) {
         }
     }
     let sigs: Map<String, Value> = per_sig.into_iter().map(|(k, v)| (k, json!(v))).collect();
-    out.emit(&json!({"kind":"summary","behaviours":behs.len(),"ok":n_ok,"root":n_bad,"steps":n_steps,"sigs":sigs}));
+    out.emit(&json!({"kind":"summary","behaviours":n_behs,"ok":n_ok,"root":n_bad,"steps":n_steps,"sigs":sigs}));
     out.flush();
 }
 
